@@ -67,6 +67,24 @@ theorem postStore_eq : ∀ (c : Chain) (s : Store),
 theorem hasActiveSetB_iff (c : Chain) : hasActiveSetB c = true ↔ HasActiveSet c := by
   simp only [hasActiveSetB, HasActiveSet, List.any_eq_true, Bool.and_eq_true, beq_iff_eq]
 
+/-! ### fill level of the table along a body -/
+
+theorem runBody_table_length : ∀ (body : List Stmt) (s : Store) (n : Nat),
+    (runBody s n body).store.table.length + n = s.table.length + (runBody s n body).done ∧
+    (s.table.length ≤ maxSet → (runBody s n body).store.table.length ≤ maxSet)
+  | [], _, _ => ⟨by simp [runBody], fun h => h⟩
+  | .stop :: _, _, _ => ⟨by simp [runBody], fun h => h⟩
+  | .set l v :: rest, s, n => by
+    unfold runBody
+    cases h : ptrSet s l v with
+    | none => exact ⟨by simp, fun h => h⟩
+    | some t =>
+      obtain ⟨_, h2, h3⟩ := ptrSet_some s t l v h
+      have ih := runBody_table_length rest t (n + 1)
+      have hl : t.table.length = s.table.length + 1 := by rw [h2]; simp
+      simp only
+      exact ⟨by have := ih.1; omega, fun _ => ih.2 (by omega)⟩
+
 /-! ### flags of a body depend on the fill level only -/
 
 theorem runBody_flags : ∀ (body : List Stmt) (s s' : Store) (n : Nat),
